@@ -931,3 +931,66 @@ pub fn lane_summary(seed: u64, stride: usize) -> Vec<Scenario> {
         })
         .collect()
 }
+
+/// C18 through `scrut update`: the same outcome classes and directory modes, clean-up and
+/// environment only (the command has no report and its own exit-status rules)
+pub fn lane_update(seed: u64) -> Vec<Scenario> {
+    lane_env(seed ^ 0x0bda7e)
+        .into_iter()
+        // (`update --cram-compat` on a Markdown document picks its executor differently from
+        // `test`; no property speaks about it)
+        .filter(|s| !s.cli.cram_compat)
+        .filter(|s| !s.lane.contains("/keep/") && s.docs.iter().all(|d| d.raw.is_none()) && s.cli.missing_paths.is_empty() && s.cli.shell.is_none())
+        .step_by(3)
+        .map(|mut s| {
+            s.lane = format!("update-{}", s.lane);
+            s.cli.command = Some("update".into());
+            s.check = vec!["C18".into()];
+            s
+        })
+        .collect()
+}
+
+/// C20: the documents are given as ONE directory argument; order between documents is then
+/// unspecified (read_dir), everything else must hold
+pub fn lane_directory(seed: u64) -> Vec<Scenario> {
+    let mut out = vec![];
+    let mut g = G::new(seed ^ 0xd12);
+    for (oname, plans, faults) in outcome_plans() {
+        if !faults.is_empty() {
+            continue; // faults are addressed by spawn order, which a directory listing does not fix
+        }
+        for n_docs in [1usize, 3] {
+            let mut sim = base_sim(g.rng.next_u64());
+            let needs_md = plans.iter().any(|p| p.cfg != TestCfg::default() || p.fate == Fate::Detached);
+            let mut docs = vec![];
+            for k in 0..n_docs {
+                let cram = !needs_md && k % 2 == 1;
+                let pl: Vec<Plan> = if k == 0 { plans.clone() } else { vec![Plan::new(Fate::Pass), Plan::new(Fate::Pass)] };
+                let tests = pl.iter().map(|p| g.test(p, &mut sim.programs)).collect();
+                docs.push(doc(
+                    &format!("suite/doc{}.{}", k, if cram { "t" } else { "md" }),
+                    if cram { Format::Cram } else { Format::Md },
+                    tests,
+                ));
+            }
+            // a document without any test case, and a file that is no document at all
+            docs.push(doc("suite/prose-only.md", Format::Md, vec![]));
+            let mut cli = Cli::default();
+            cli.as_directory = true;
+            let mut sc = Scenario {
+                lane: format!("directory/{}/{}docs", oname, n_docs),
+                tier: Tier::Cli,
+                script_mode: false,
+                docs,
+                cli,
+                sim,
+                pretty: false,
+                check: vec!["C20".into(), "C05".into(), "C15".into(), "C18".into()],
+            };
+            fill_expectations(&mut sc, &mut g);
+            out.push(sc);
+        }
+    }
+    out
+}
